@@ -27,7 +27,7 @@ theorem recWF_of_bc64 (pfx s22 d : Str) (hp : pfx ∈ lpBcryptPrefixes) (hs : Bc
     the result is the PHC record built from the PARSED answer: version 2, the answer's prefix, the answer's cost, salt and digest. -/
 theorem bsha_hash_assembles (L : Lib) (secret : Secret) (b : Bytes) (salt : Bytes) (pfx : Str) (B : Nat) (s22 d : Str)
     (hne : salt ≠ []) (hb : asBytes secret = .ok b) (hp : pfx ∈ lpBcryptPrefixes) (hs : Bc64Text 22 s22) (hd : Bc64Text 31 d)
-    (hh : L.hashpw (prehash b (lastField salt)) salt = .ok (bcStr pfx B s22 d)) :
+    (hh : L.hashpw (prehash b (saltKey salt)) salt = .ok (bcStr pfx B s22 d)) :
     bshaHash L secret salt = lpPhcRender bcryptSha256Phc (phcRec 2 pfx B s22 d) := by
   have hne' : salt.isEmpty = false := by cases salt <;> simp_all
   have h2 : ofString "2" = fmtDec (((2 : Nat) : Int)) := by decide
@@ -46,8 +46,22 @@ theorem bsha_hash_wellformed (L : Lib) (hL : BcryptLib L) (secret : Secret) (b :
   obtain ⟨d, hd, hh⟩ := hL.shape (prehash b s22) pfx B s22 last hp hB.1 hB.2 hs hl hf (by rw [prehash_length]; decide)
   refine ⟨d, _, hd, hh, rfl, ?_⟩
   have := bsha_hash_assembles L secret b (saltOf pfx B s22) pfx B s22 d (by simp [saltOf]) hb hp hs hd
-    (by rw [lastField_saltOf pfx B s22 hs.2]; exact hh)
+    (by rw [saltKey_saltOf pfx B s22 hs]; exact hh)
   rw [this]; rfl
+
+/-- **a whole bcrypt string handed over as `salt=`** (the package accepts one wherever it expects a salt and reads its first 29
+    characters): the hasher makes exactly the record it makes for that string's salt — hence one that verifies (`bsha_verifies_own`).
+    Before fix 0142233 the pre-hash was keyed with the 53 characters after the last "$" and the record did not verify its own secret. -/
+theorem bsha_hash_of_whole_string (L : Lib) (hL : BcryptLib L) (secret : Secret) (pfx : Str) (B : Nat) (s22 d0 : Str)
+    (hs : Bc64Text 22 s22) (hd : Bc64Text 31 d0) :
+    bshaHash L secret (bcStr pfx B s22 d0) = bshaHash L secret (saltOf pfx B s22) := by
+  unfold bshaHash
+  have e1 : (bcStr pfx B s22 d0).isEmpty = false := by simp [bcStr]
+  have e2 : (saltOf pfx B s22).isEmpty = false := by simp [saltOf]
+  simp only [e1, e2, Bool.false_eq_true, if_false, saltKey_bcStr pfx B s22 d0 hs hd.2, saltKey_saltOf pfx B s22 hs]
+  cases prepareSecret secret s22 with
+  | error e => rfl
+  | ok p => simp only [hL.salt29 p pfx B s22 d0 hs.1 hd.1]
 
 /-- **verify, every package, every well-formed version-2 record** (any type text, any cost, salt of 11..64 and digest of 16..86 PHC
     characters): exactly `checkpw(pre-hash keyed with the record's salt field, "$<t>$<r:02>$<salt><digest>")` -/
